@@ -29,7 +29,8 @@ def demo(wt, features):
     shutil.copy(os.path.join(wt, "SEED", "demo.rs"), os.path.join(wt, "tests", "seed_demo.rs"))
     try:
         feat = ("--features " + features) if features else ""
-        rc, out = sh("cargo test --offline --test seed_demo %s 2>&1 | tail -25" % feat, cwd=wt)
+        rel = "--release" if os.path.exists(os.path.join(wt, "SEED", "RELEASE")) else ""
+        rc, out = sh("cargo test --offline --test seed_demo %s %s 2>&1 | tail -25" % (rel, feat), cwd=wt)
         rc2 = 0
         if "test result: ok" in out and "FAILED" not in out:
             return True, out
@@ -43,9 +44,9 @@ def detect_features(wt):
     src = open(os.path.join(wt, "SEED", "demo.rs")).read()
     notes = open(os.path.join(wt, "SEED", "notes.md")).read() if os.path.exists(os.path.join(wt, "SEED", "notes.md")) else ""
     f = []
-    if "collections" in src:
-        f.append("collections")
-    if "boxed" in src:
+    if "collections" in src or "bumpalo::vec!" in src:
+        f += ["collections", "boxed", "std"]
+    elif "boxed" in src:
         f.append("boxed")
     if "allocator_api2" in src or "allocator-api2" in notes and "allocator_api2" in src:
         f.append("allocator-api2")
